@@ -95,7 +95,12 @@ class FakeTransport(asyncio.DatagramTransport):
             self.host.sim.sends_after_close.append((self.host.sim.now(), self.host.name, bytes(data), addr))
 
     def close(self):
-        self.closed = True
+        # as asyncio's datagram transport does: the first close() schedules protocol.connection_lost(None)
+        if not self.closed:
+            self.closed = True
+            loop = self.host.sim.loop
+            if loop is not None and not loop.is_closed():
+                loop.call_soon(self.protocol.connection_lost, None)
 
     def is_closing(self):
         return self.closed
